@@ -140,6 +140,12 @@ class C14(Check):
                              pairs, through=False)
             self.eval_tx(bytes.fromhex(case["tx"]), (case.get("desc0", "replay"),), stats, vs, pairs,
                          through=True)
+            if not vs and case.get("before"):
+                # alone it is fine: with the transactions the recording run had evaluated just before
+                for h in case["before"]:
+                    self.eval_tx(bytes.fromhex(h), ("before",), stats, [], {}, through=True)
+                self.eval_tx(bytes.fromhex(case["tx"]), (case.get("desc0", "replay"),), stats, vs, {},
+                             through=True)
             return vs
         n = len(self.menu)
         if k == "scripts":
@@ -205,13 +211,21 @@ class C14(Check):
         return vs
 
     def viol(self, vs, clause, detail, raw, desc, observed, expected):
+        # the transactions evaluated just before in this process are part of the history (a memo or
+        # scratch object kept by the code under test between calls)
+        hist = [h.hex() for h in getattr(self, "_recent", [])[-40:] if h != raw]
         vs.append(Violation("C14", "C14:%s:%s" % (clause, detail),
-                            {"kind": "one", "tx": raw.hex(), "desc": repr(desc), "desc0": desc[0]}, None,
+                            {"kind": "one", "tx": raw.hex(), "desc": repr(desc), "desc0": desc[0],
+                             "before": hist}, None,
                             observed, expected, clause))
 
     def eval_tx(self, raw, desc, stats, vs, pairs, through):
         import comm.bitcoin as CB
         stats.evaluations += 1
+        if not hasattr(self, "_recent"):
+            self._recent = []
+        self._recent.append(raw)
+        del self._recent[:-60]
         # reference verdict
         ref_err = None
         try:
